@@ -1476,7 +1476,7 @@ class Backend:
 
 def href_to_path(environ, href) -> Optional[str]:
     script_name = environ["SCRIPT_NAME"].rstrip("/")
-    if not href or not href.startswith(script_name):
+    if not href or not (href == script_name or href.startswith(script_name + "/")):
         return None
     else:
         path = href[len(script_name) :]
